@@ -124,7 +124,7 @@ class ContainerMixin:
         ks = sort_of(d.kty)
         st.hset(dk, z3.Store(dom, d.obj, z3.K(ks, z3.BoolVal(False))))
         st.hset(ck, z3.Store(cnt, d.obj, z3.IntVal(0)))
-        if d.vty[0] in ("int", "real"):
+        if d.vty[0] in ("int", "real") and d.vty[0] != "list":
             sm, sk = self._darr(st, d, "#sum")
             st.hset(sk, z3.Store(sm, d.obj, z3.RealVal(0)))
 
@@ -132,6 +132,9 @@ class ContainerMixin:
         if m == "values":
             from .flow import DictValues
             return k(DictValues(recv), st)
+        if m == "clear" and not args and not kwargs:
+            self.dict_clear(st, recv)
+            return k(PyConst(None), st)
         raise Unsupported("dict method " + m)
 
     def dict_sum_values(self, st, d):
